@@ -443,6 +443,138 @@ fn churn_case(case: u64, rng: &mut Rng, rep: &mut Report) {
     }
 }
 
+/// A writer that is busy inside a long call - waiting for its merges, committing, rolling back -
+/// is alive for the whole duration of the call: creation attempts made meanwhile (same Index
+/// handle and a second handle on the same directory) are refused with a lock error; once the
+/// call has returned and the writer is gone, a writer can be created.
+fn busy_writer_case(case: u64, rng: &mut Rng, rep: &mut Report) {
+    use std::time::Duration;
+    let mon = MonDir::new(MonCfg::default());
+    let hs = hschema();
+    let index = match Index::create(mon.clone(), hs.schema.clone(), Default::default()) {
+        Ok(i) => i,
+        Err(e) => {
+            rep.violation("api-error:create", json!(e.to_string()));
+            return;
+        }
+    };
+    rep.eval();
+    let mut writer: IndexWriter = match index.writer_with_options(opts(1, 15_000_000)) {
+        Ok(w) => w,
+        Err(e) => {
+            rep.violation("api-error:writer", json!(e.to_string()));
+            return;
+        }
+    };
+    writer.set_merge_policy(Box::new(tantivy::merge_policy::NoMergePolicy));
+    let mut next_id = 1u64;
+    let nseg = rng.urange(2, 3);
+    for _ in 0..nseg {
+        for _ in 0..rng.urange(1, 5) {
+            let d = MDoc { id: next_id, grp: next_id % 3, val: Some(1), body: vec![1, 2], tag: 1, pad: 0 };
+            next_id += 1;
+            if writer.add_document(d.to_doc(&hs)).is_err() {
+                return;
+            }
+        }
+        if let Err(e) = writer.commit() {
+            rep.violation("api-error:commit", json!(e.to_string()));
+            return;
+        }
+    }
+    let which = rng.below(3);
+    let what = ["wait_merging_threads", "commit", "rollback"][which as usize];
+    // park the call at a storage operation in its middle
+    let gate = match which {
+        0 => {
+            let ids = index.searchable_segment_ids().unwrap_or_default();
+            let g = mon.add_gate(OpPred::kind(OpKind::OpenWrite).role("merge"), rng.below(4));
+            let _ = writer.merge(&ids);
+            if !mon.wait_parked(g, Duration::from_secs(5)) {
+                mon.release_all_gates();
+                rep.count("busy:gate_not_reached", 1);
+                return;
+            }
+            g
+        }
+        1 => {
+            let d = MDoc { id: next_id, grp: 0, val: Some(1), body: vec![1], tag: 1, pad: 0 };
+            let _ = writer.add_document(d.to_doc(&hs));
+            mon.add_gate(OpPred::kind(OpKind::AtomicWrite).role("updater").path("meta.json"), 0)
+        }
+        _ => mon.add_gate(OpPred::kind(OpKind::AtomicRead).path("meta.json"), 0),
+    };
+    let busy = std::thread::Builder::new()
+        .name("tvmon-busy-writer".into())
+        .spawn(move || -> Result<Option<IndexWriter>, String> {
+            match which {
+                0 => writer.wait_merging_threads().map(|_| None).map_err(|e| e.to_string()),
+                1 => writer.commit().map(|_| Some(writer)).map_err(|e| e.to_string()),
+                _ => writer.rollback().map(|_| Some(writer)).map_err(|e| e.to_string()),
+            }
+        })
+        .expect("spawn");
+    let parked = which == 0 || mon.wait_parked(gate, Duration::from_secs(5));
+    let mut created_meanwhile = 0u32;
+    let mut refused = 0u32;
+    let mut other = vec![];
+    if parked {
+        let second = Index::open(mon.clone()).ok();
+        for i in 0..rng.urange(3, 12) {
+            let idx = if i % 2 == 0 { Some(&index) } else { second.as_ref() };
+            let Some(idx) = idx else { continue };
+            match idx.writer_with_options::<tantivy::TantivyDocument>(opts(1, 15_000_000)) {
+                Ok(w) => {
+                    created_meanwhile += 1;
+                    drop(w);
+                }
+                Err(e) if is_lock_failure(&e) => refused += 1,
+                Err(e) => other.push(e.to_string()),
+            }
+            std::thread::sleep(Duration::from_millis(rng.range(0, 3)));
+        }
+    }
+    mon.release_gate(gate);
+    mon.release_all_gates();
+    let res = busy.join();
+    rep.count(if parked { "busy:call_parked_in_the_middle" } else { "busy:gate_not_reached" }, 1);
+    if created_meanwhile > 0 {
+        rep.violation(
+            format!("busy:second-writer-created-while-the-first-was-inside-{what}"),
+            json!({"case": case, "created": created_meanwhile, "refused": refused}),
+        );
+    }
+    for e in other.iter().take(2) {
+        rep.violation("busy:refusal-is-not-a-lock-error", json!({"case": case, "call": what, "err": e}));
+    }
+    let survivor = match res {
+        Ok(Ok(w)) => w,
+        Ok(Err(e)) => {
+            rep.violation(format!("busy:{what}-failed"), json!({"case": case, "err": e}));
+            None
+        }
+        Err(_) => {
+            rep.violation(format!("busy:{what}-panicked"), json!({"case": case}));
+            None
+        }
+    };
+    // commit / rollback keep the writer: still exactly one
+    if let Some(w) = survivor {
+        if let Ok(w2) = index.writer_with_options::<tantivy::TantivyDocument>(opts(1, 15_000_000)) {
+            drop(w2);
+            rep.violation(format!("busy:second-writer-created-after-{what}-returned-while-the-first-is-alive"), json!({"case": case}));
+        }
+        drop(w);
+    }
+    match index.writer_with_options::<tantivy::TantivyDocument>(opts(1, 15_000_000)) {
+        Ok(w) => drop(w),
+        Err(e) => rep.violation(format!("busy:no-writer-can-be-created-after-{what}-and-drop"), json!({"case": case, "err": e.to_string()})),
+    }
+    if parked && refused > 0 {
+        rep.nontrivial(format!("busy:{what}:nseg={nseg}"));
+    }
+}
+
 fn child(path: &str) -> ! {
     let r = Index::open_in_dir(path).and_then(|i| i.writer_with_num_threads::<tantivy::TantivyDocument>(1, 15_000_000));
     match r {
@@ -469,6 +601,7 @@ fn main() {
     let ctx = Ctx::from_env("C18", "exploration");
     let mut rep = run_cases(&ctx, "lifecycle", ctx.scale(300, 20000) as u64, |c, r, rep| lifecycle_case(c, r, rep, false));
     rep.merge(run_cases(&ctx, "churn", ctx.scale(40, 2000) as u64, churn_case));
+    rep.merge(run_cases(&ctx, "busy", ctx.scale(60, 3000) as u64, busy_writer_case));
     let mut ctx1 = ctx.clone();
     ctx1.threads = 1;
     rep.merge(run_cases(&ctx1, "xproc", ctx.scale(12, 300) as u64, |c, r, rep| lifecycle_case(c, r, rep, true)));
